@@ -264,6 +264,11 @@ CONTEXTS = {
     'singletons': dict(x=(3, 3), y=(0, 0), z=(-2, -2), w=(-2, -2), b='bool', c='bool'),
 }
 
+# bitfields wider than 10 bits: the bit names x_10, x_11 sort before x_2 as strings
+WIDE_CONTEXT = dict(x=(0, 2047), y=(-1200, 1500), b='bool')
+WIDE_FORMULAS = ['x = 4', 'x + 1 > y', 'x - y = 1030', 'y < -1024', 'x >= 1024', r'x \in 1000..2000',
+                 r'b <=> (y = -1025)', 'x = y + 1200', "x' = x + 1", "y' < y"]
+
 # registered operator definitions whose stored text needs its parentheses
 DEFINITIONS = [
     ('p == (x / (y * z) = w)', r'p \/ (y * z = 0)'),
@@ -500,7 +505,7 @@ def h_two_contexts(defs1, defs2, formula):
     return h
 
 
-def real_manager_formulas(cname, backend, primed=False, samples=60, seed=0):
+def real_manager_formulas(cname, backend, primed=False, samples=60, seed=0, decl=None, formulas=None):
     """BOUNDED: the end-to-end formulas through the real pipeline on a REAL dd
     manager (the proofs above run on the abstract manager): acceptance, and the
     meaning at `samples` random assignments of the declared bits (plus the
@@ -512,20 +517,22 @@ def real_manager_formulas(cname, backend, primed=False, samples=60, seed=0):
         rnd = random.Random(seed)
         fails = list()
         n = 0
-        todo = [(f, None) for f in (PRIMED if primed else FORMULAS)]
-        if not primed:
-            todo += [(f, ops) for ops, f in DEFINITIONS if "'" not in ops]
-            todo += [(a, None) for a, _, _ in PRECEDENCE_REAL]
+        if formulas is not None:
+            todo = [(f, None) for f in formulas]
+        else:
+            todo = [(f, None) for f in (PRIMED if primed else FORMULAS)]
+            if not primed:
+                todo += [(f, ops) for ops, f in DEFINITIONS if "'" not in ops]
         for fml, ops in todo:
             c = _trl.Automaton() if primed else _fol.Context()
             if backend == 'autoref':
                 import dd.autoref as autoref
                 c.bdd = autoref.BDD()
-            decl = CONTEXTS[cname]
+            decl_ = decl if decl is not None else CONTEXTS[cname]
             if primed:
-                c.declare_variables(**decl)
+                c.declare_variables(**decl_)
             else:
-                c.declare(**decl)
+                c.declare(**decl_)
             opsd = dict()
             try:
                 if ops:
